@@ -247,16 +247,16 @@ theorem writeAlias_np (U : UnicodeOps) (cfg : Cfg) (a : RustTypeAlias) (st : St)
   have := formatType_np cfg a.genericTypes
   unfold writeAlias; np_auto
 
-theorem algebraicCase_np (cfg : Cfg) (e : RustEnum) (v : RustEnumVariant) (st : St) :
-    NP (algebraicCase cfg e v st) := by
+theorem algebraicCase_np (U : UnicodeOps) (cfg : Cfg) (e : RustEnum) (v : RustEnumVariant) (st : St) :
+    NP (algebraicCase U cfg e v st) := by
   have := formatType_np cfg e.genericTypes
   unfold algebraicCase; np_auto
 
-theorem algebraicCases_np (cfg : Cfg) (e : RustEnum) : ∀ vs st, NP (algebraicCases cfg e vs st)
+theorem algebraicCases_np (U : UnicodeOps) (cfg : Cfg) (e : RustEnum) : ∀ vs st, NP (algebraicCases U cfg e vs st)
   | [], st => by simp only [algebraicCases]; np_auto
   | v :: vs, st => by
-    have := algebraicCase_np cfg e v
-    have := algebraicCases_np cfg e vs
+    have := algebraicCase_np U cfg e v
+    have := algebraicCases_np U cfg e vs
     simp only [algebraicCases]; np_auto
 
 theorem anonymousStructs_np (U : UnicodeOps) (cfg : Cfg) (e : RustEnum) : ∀ ps st, NP (anonymousStructs U cfg e ps st)
@@ -268,7 +268,7 @@ theorem anonymousStructs_np (U : UnicodeOps) (cfg : Cfg) (e : RustEnum) : ∀ ps
 
 theorem enumFacts_np (U : UnicodeOps) (cfg : Cfg) (e : RustEnum) (st : St) : NP (enumFacts U cfg e st) := by
   have := anonymousStructs_np U cfg e
-  have := algebraicCases_np cfg e
+  have := algebraicCases_np U cfg e
   unfold enumFacts; np_auto
 
 theorem writeEnum_np (U : UnicodeOps) (cfg : Cfg) (e : RustEnum) (st : St) : NP (writeEnum U cfg e st) := by
